@@ -1,48 +1,82 @@
-import BctVerif.Model.Modularity
+import BctVerif.Lemmas.ModularitySign
 import Mathlib.Data.List.Perm.Basic
-import Mathlib.Tactic
 
-/-! # the spectral-bisection skeleton returns a partition of its input -/
+/-! # the spectral path of `modularity_und` / `modularity_dir`: partition, labels, reported q — for every oracle -/
 namespace Bct.Modularity
 
 variable {n : ℕ}
 
-theorem filter_append_perm (m : List (Fin n)) (p : Fin n → Bool) :
-    (m.filter p ++ m.filter (fun i => !p i)).Perm m := by
+theorem splitBy_perm : ∀ (m : List (Fin n)) (sg : List Bool), sg.length = m.length →
+    (splitBy m sg true ++ splitBy m sg false).Perm m := by
+  intro m
   induction m with
-  | nil => simp
+  | nil => intro sg _; simp [splitBy]
   | cons x m ih =>
-    by_cases hx : p x = true
-    · simp only [List.filter_cons, hx, if_true, Bool.not_true, Bool.false_eq_true, if_false, List.cons_append]
-      exact List.Perm.cons x ih
-    · have hx' : p x = false := by simpa using hx
-      simp only [List.filter_cons, hx', Bool.false_eq_true, if_false, Bool.not_false, if_true]
-      exact (List.perm_middle).trans (List.Perm.cons x ih)
+    intro sg hlen
+    cases sg with
+    | nil => simp at hlen
+    | cons b sg =>
+      have hlen' : sg.length = m.length := by simpa using hlen
+      have := ih sg hlen'
+      simp only [splitBy, beq_iff_eq] at this
+      cases b with
+      | true =>
+        simp only [splitBy, List.zip_cons_cons, List.filterMap_cons, beq_self_eq_true, if_true, List.cons_append,
+          Bool.true_eq_false, Bool.false_eq_true, if_false, beq_iff_eq]
+        exact List.Perm.cons x this
+      | false =>
+        simp only [splitBy, List.zip_cons_cons, List.filterMap_cons, beq_self_eq_true, if_true,
+          Bool.true_eq_false, Bool.false_eq_true, if_false, beq_iff_eq]
+        exact (List.perm_middle).trans (List.Perm.cons x this)
 
-/-- **recur_partition** — for *any* oracle, the modules produced by the bisection list every node of the
-input module exactly once (their concatenation is a permutation of it) and none of them is empty. -/
-theorem bisect_partition (oracle : List (Fin n) → Option (Fin n → Bool)) (fuel : ℕ) (m : List (Fin n)) :
-    (bisect oracle fuel m).flatten.Perm m ∧ (m ≠ [] → ∀ part ∈ bisect oracle fuel m, part ≠ []) := by
-  induction fuel generalizing m with
-  | zero => simp [bisect]
+/-- **recur_partition** — for *every* list of recorded decisions, the modules produced by the bisection
+list every node of the input module exactly once (their concatenation is a permutation of it) and none of
+them is empty. -/
+theorem bisectL_partition : ∀ (fuel : ℕ) (m : List (Fin n)) (ds rest : List (Option (List Bool)))
+    (ls : List (List (Fin n))), bisectL fuel m ds = .ok (ls, rest) →
+    ls.flatten.Perm m ∧ (m ≠ [] → ∀ part ∈ ls, part ≠ []) := by
+  intro fuel
+  induction fuel with
+  | zero => intro m ds rest ls h; simp [bisectL] at h
   | succ fuel ih =>
-    unfold bisect
-    cases ho : oracle m with
-    | none => simp
-    | some asg =>
-      simp only
-      split_ifs with hempty
-      · simp
-      · simp only [Bool.or_eq_true, List.isEmpty_iff, not_or] at hempty
-        obtain ⟨ha, hb⟩ := hempty
-        obtain ⟨pa, na⟩ := ih (m.filter asg)
-        obtain ⟨pb, nb⟩ := ih (m.filter fun i => !asg i)
-        refine ⟨?_, fun _ part hpart => ?_⟩
-        · rw [List.flatten_append]
-          exact (List.Perm.append pa pb).trans (filter_append_perm m asg)
-        · rcases List.mem_append.mp hpart with h | h
-          · exact na ha part h
-          · exact nb hb part h
+    intro m ds rest ls h
+    cases ds with
+    | nil => simp [bisectL] at h
+    | cons d ds =>
+      cases d with
+      | none =>
+        simp only [bisectL, Except.ok.injEq, Prod.mk.injEq] at h
+        obtain ⟨rfl, _⟩ := h
+        simp
+      | some sg =>
+        simp only [bisectL] at h
+        split_ifs at h with hlen hempty
+        · simp only [Except.ok.injEq, Prod.mk.injEq] at h
+          obtain ⟨rfl, _⟩ := h
+          simp
+        · simp only [bind, Except.bind] at h
+          cases ha : bisectL fuel (splitBy m sg true) ds with
+          | error e => simp [ha] at h
+          | ok ra =>
+            obtain ⟨la, ds1⟩ := ra
+            simp only [ha] at h
+            cases hb : bisectL fuel (splitBy m sg false) ds1 with
+            | error e => simp [hb] at h
+            | ok rb =>
+              obtain ⟨lb, ds2⟩ := rb
+              simp only [hb, Except.ok.injEq, Prod.mk.injEq] at h
+              obtain ⟨rfl, _⟩ := h
+              simp only [Bool.or_eq_true, List.isEmpty_iff, not_or] at hempty
+              obtain ⟨pa, na⟩ := ih _ _ _ _ ha
+              obtain ⟨pb, nb⟩ := ih _ _ _ _ hb
+              have hl : sg.length = m.length := by
+                by_contra hne; exact hlen hne
+              refine ⟨?_, fun _ part hpart => ?_⟩
+              · rw [List.flatten_append]
+                exact (List.Perm.append pa pb).trans (splitBy_perm m sg hl)
+              · rcases List.mem_append.mp hpart with h' | h'
+                · exact na hempty.1 part h'
+                · exact nb hempty.2 part h'
 
 /-- `ls2ci` of a list of non-empty modules that lists every node exactly once gives labels exactly `1..k` -/
 theorem ls2ci_range (ls : List (List (Fin n))) (hperm : ls.flatten.Perm (List.finRange n))
@@ -77,13 +111,56 @@ theorem ls2ci_range (ls : List (List (Fin n))) (hperm : ls.flatten.Perm (List.fi
       exact this hget hin
     simp only [ls2ci, heq]; omega
 
-/-- the whole spectral path: labels exactly `1..k` whatever the oracle answers -/
-theorem bisect_labels (oracle : List (Fin n) → Option (Fin n → Bool)) (fuel : ℕ) (hn : 0 < n) :
-    let ls := bisect oracle fuel (List.finRange n)
-    (∀ i, 1 ≤ ls2ci ls i ∧ ls2ci ls i ≤ ls.length) ∧ (∀ l, 1 ≤ l → l ≤ ls.length → ∃ i, ls2ci ls i = l) := by
-  obtain ⟨hp, hne⟩ := bisect_partition oracle fuel (List.finRange n)
-  have hne0 : List.finRange n ≠ [] := by
-    intro h; have := congrArg List.length h; simp at this; omega
-  exact ls2ci_range _ hp (hne hne0)
+theorem modularityDirGiven_eq {α : Type} [DecidableEq α] (W : RMat n) (γ : ℚ) (c : Fin n → α) :
+    modularityDirGiven W γ c = Qdir W γ c := by
+  unfold modularityDirGiven Qdir
+  rw [Qobj_eq]
+  simp only [fsum_eq]
+  have h1 : ∀ i j, (if c i = c j then ((Bmod W γ).get i j + (Bmod W γ).get j i) / (2 * total W) else 0)
+      = ((if c i = c j then (Bmod W γ).get i j else 0) + (if c j = c i then (Bmod W γ).get j i else 0)) / (2 * total W) := by
+    intro i j
+    by_cases h : c i = c j
+    · simp [h]
+    · have h' : ¬ c j = c i := fun e => h e.symm
+      simp [h, h']
+  simp only [h1, ← Finset.sum_div, Finset.sum_add_distrib]
+  rw [Finset.sum_comm (f := fun i j => if c j = c i then (Bmod W γ).get j i else 0)]
+  rw [← two_mul, mul_div_mul_left _ _ (two_ne_zero)]
+
+theorem modularityUndGiven_eq {α : Type} [DecidableEq α] (W : RMat n) (γ : ℚ) (hW : Symm W) (c : Fin n → α) :
+    modularityUndGiven W γ c = Qund W γ c := by
+  unfold modularityUndGiven Qund
+  rw [Qobj_eq]
+  simp only [fsum_eq, Finset.sum_div]
+  refine Finset.sum_congr rfl (fun i _ => Finset.sum_congr rfl (fun j _ => ?_))
+  simp only [Fin.getElem_fin, Vector.getElem_ofFn, Fin.eta, Bund_get, hW.colSum_eq_rowSum]
+  split_ifs
+  · ring
+  · simp
+
+/-- **spectral path, whole run** — for every list of eigen-solver decisions: the returned labels are exactly
+`1..k` and the returned `q` is the modularity of the returned partition (`Qdir`; `Qund` on symmetric input). -/
+theorem spectralRun_spec (dir : Bool) (W : RMat n) (γ : ℚ) (ds : List (Option (List Bool)))
+    (ci : Fin n → ℕ) (q : ℚ) (left : ℕ) (hn : 0 < n) (h : spectralRun dir W γ ds = .ok (ci, q, left)) :
+    (∃ k, (∀ i, 1 ≤ ci i ∧ ci i ≤ k) ∧ ∀ l, 1 ≤ l → l ≤ k → ∃ i, ci i = l) ∧
+    (dir = true → q = Qdir W γ ci) ∧ (dir = false → Symm W → q = Qund W γ ci) := by
+  unfold spectralRun at h
+  simp only [bind, Except.bind, pure, Except.pure] at h
+  by_cases hs0 : total W = 0
+  · simp [hs0, throw, throwThe, MonadExceptOf.throw] at h
+  · simp only [hs0, if_false] at h
+    cases hb : bisectL (n + 1) (List.finRange n) ds with
+    | error e => simp [hb] at h
+    | ok r =>
+      obtain ⟨ls, rest⟩ := r
+      simp only [hb, Except.ok.injEq, Prod.mk.injEq] at h
+      obtain ⟨rfl, rfl, _⟩ := h
+      obtain ⟨hp, hne⟩ := bisectL_partition _ _ _ _ _ hb
+      have hne0 : List.finRange n ≠ [] := by
+        intro h'; have := congrArg List.length h'; simp at this; omega
+      obtain ⟨h1, h2⟩ := ls2ci_range ls hp (hne hne0)
+      refine ⟨⟨ls.length, h1, h2⟩, fun hd => ?_, fun hd hW => ?_⟩
+      · simp only [hd, if_true]; exact modularityDirGiven_eq W γ _
+      · simp only [hd, Bool.false_eq_true, if_false]; exact modularityUndGiven_eq W γ hW _
 
 end Bct.Modularity
